@@ -199,3 +199,26 @@ def run(ctx):
             continue
         if o != e:
             ctx.fail("hint-" + pk, "deserialize_%s on a %s through %s: the visitor saw %s, the document says %s" % (hint, form, p, o[:200], e[:200]), [cases[k]], [o], e)
+
+    # ---- model side: the deserializer step of the extracted walks under the same hints (TextDeTape.tape_visit /
+    # TextDeStream.stream_visit incl. the hints no runtime shape issues): kind de.hint.model.  Phase 1 asks the
+    # implementation for the canonical tape / the reader tokens of each text (as the stream walk_model does).
+    docs = sorted(set(tuple(c.split("\t")[2:5]) for c in cases))
+    texts = sorted(set(d[2] for d in docs))
+    p1 = ["tt.parse\t" + h for h in texts] + ["tr.slice\t" + h for h in texts]
+    out, _ = ctx.correspond("hint_model-phase1", p1, model=False, nontrivial=lambda c, i: i.startswith("ok ") or " END" in i)
+    b1 = len(out) - len(p1)
+    tape, toks = {}, {}
+    for k, h in enumerate(texts):
+        o = out[b1 + k]
+        if o.startswith("ok "):
+            parts = o.split(" ", 2)
+            tape[h] = parts[2] if len(parts) > 2 else "-"
+        toks[h] = out[b1 + len(texts) + k]
+    mcases = []
+    for (enc, hint, h) in docs:
+        if h in tape:
+            mcases.append("\t".join(["de.hint.model", "tape", enc, hint, h, tape[h]]))
+        if hint not in ("i128", "u128"):      # the stream deserializer has no 128-bit methods (finding P): nothing to model
+            mcases.append("\t".join(["de.hint.model", "stream", enc, hint, h, toks[h]]))
+    ctx.correspond("hint_model", mcases, nontrivial=lambda c, i: i.startswith("("))
